@@ -71,4 +71,65 @@ PROPS = {
         thorough=[S('entry'), S('histS')],
         rule='every reachable configuration of the submachine x every event (incl. the exit point event from outside) x guard valuations',
     ),
+    'C04': dict(
+        level='model_checking', design_ref='5/C04', oracle='C04',
+        technique='explicit-state exploration with nested submissions at every callback position (budgeted deviations) + re-entrancy monitor + reference-model conformance',
+        quick=[S('flat', ops=['start', 'pe:1', 'pe:2', 'pe:4', 'eq:3', 'xq', 'xs'], submits=1, guards=1, qbound=2),
+               S('hier2', ops=['start', 'pe:1', 'pe:3', 'eq:1', 'xq'], submits=1, guards=1, qbound=2),
+               S('hier2', ops=['start', 'pe:1', 'pe:2'], submits=1, guards=2, qbound=1, cfgs=['b', 'b11', 'm', 'mc'])],
+        thorough=[S('flat', ops=['start', 'pe:1', 'pe:2', 'pe:3', 'pe:4', 'eq:1', 'eq:3', 'xq', 'xs'], submits=2, guards=1, qbound=2),
+                  S('hier2', ops=['start', 'pe:1', 'pe:2', 'pe:3', 'pe:4', 'eq:1', 'xq', 'xs'], submits=1, guards=2, qbound=2),
+                  S('ortho', ops=['start', 'pe:1', 'pe:2', 'pe:3', 'eq:1', 'xq', 'xs'], submits=2, guards=1, qbound=2),
+                  S('hier3', ops=['start', 'pe:1', 'pe:2', 'pe:4', 'eq:2', 'xq'], submits=1, guards=1, qbound=2)],
+        rule='every reachable configuration x every event x up to N nested submissions (process_event / enqueue_event, local Fsm or root) '
+             'placed at any guard/exit/action/entry/exception_caught position, during event processing and during start(), interleaved with '
+             'driver-level enqueue_event / execute_queued_events / execute_single_queued_event; non-trivial when a nested submission happened',
+    ),
+    'C10': dict(
+        level='model_checking', design_ref='5/C10', oracle='C10',
+        technique='explicit-state exploration of completion chains with queued/deferred events pending + completion-first monitor + reference-model conformance',
+        quick=[S('compl', ops=['start', 'stop', 'pe:1', 'pe:2', 'pe:3', 'pe:4', 'eq:4', 'eq:1', 'xq'], qbound=2),
+               S('compl', ops=['start', 'pe:1', 'pe:2', 'pe:3', 'pe:4', 'eq:1'], qbound=2, submits=1, guards=2)],
+        thorough=[S('compl', ops=['start', 'stop', 'pe:1', 'pe:2', 'pe:3', 'pe:4', 'eq:4', 'eq:1', 'eq:2', 'xq', 'xs'], qbound=3),
+                  S('compl', ops=['start', 'pe:1', 'pe:2', 'pe:3', 'pe:4', 'eq:1'], qbound=2, submits=2, guards=3)],
+        rule='all histories over the events of the completion machine with 0-2 queued and deferred events pending, completion guards fixed per entry of '
+             'their source state, to closure; non-trivial when a completion row was tried',
+    ),
+    'C11': dict(
+        level='model_checking', design_ref='5/C11', oracle='C11',
+        technique='explicit-state exploration of terminate/interrupt states with pending queued and deferred events + blocking monitor + reference-model conformance',
+        quick=[S('block', ops=['start', 'stop', 'pe:1', 'pe:2', 'pe:3', 'pe:4', 'pe:5', 'pe:6', 'eq:4', 'eq:1', 'xq'], qbound=2)],
+        thorough=[S('block', ops=['start', 'stop', 'pe:1', 'pe:2', 'pe:3', 'pe:4', 'pe:5', 'pe:6', 'eq:4', 'eq:1', 'eq:5', 'xq', 'xs'], qbound=3),
+                  S('block', ops=['start', 'pe:1', 'pe:2', 'pe:3', 'pe:4', 'pe:5', 'pe:6'], qbound=2, submits=1, guards=1)],
+        rule='all histories over every event (incl. both end-interrupt events) with queued and deferred events pending when the blocking state is '
+             'entered, to closure; non-trivial when the machine was blocked at the time of the call',
+    ),
+    'C05': dict(
+        level='model_checking', design_ref='5/C05', oracle='C05',
+        technique='explicit-state exploration of deferring configurations (state property and Defer action) + deferral ledger + reference-model conformance',
+        quick=[S('defer', ops=['start', 'pe:1', 'pe:2', 'pe:3', 'pe:4', 'pe:5', 'eq:3', 'xq'], qbound=3),
+               S('block', ops=['start', 'pe:1', 'pe:2', 'pe:3', 'pe:4', 'pe:5', 'pe:6'], qbound=2)],
+        thorough=[S('defer', ops=['start', 'stop', 'pe:1', 'pe:2', 'pe:3', 'pe:4', 'pe:5', 'eq:3', 'eq:1', 'xq', 'xs'], qbound=4),
+                  S('defer', ops=['start', 'pe:1', 'pe:2', 'pe:3', 'pe:4', 'pe:5'], qbound=3, submits=1),
+                  S('block', ops=['start', 'pe:1', 'pe:2', 'pe:3', 'pe:4', 'pe:5', 'pe:6', 'eq:4', 'xq'], qbound=3)],
+        rule='all histories over two deferred event types, state-changing events, a handled no-op event and enqueue_event with at most 3 deferred '
+             'events pending, Defer-row guards as choice points, to closure; non-trivial when an event was deferred or re-offered',
+    ),
+    'C12': dict(
+        level='fault_enumeration', design_ref='5/C12', oracle='C12',
+        technique='exhaustive fault enumeration: every callback position of every reachable step as throw point on the real back-ends, '
+                  'continuations to closure, reference-model conformance + two-build (zero/pattern auto-init) differential for indeterminate values',
+        quick=[S('flat', faults=1, fault_ops=1, twobuild=True),
+               S('hier2', faults=1, fault_ops=1, twobuild=True),
+               S('compl', ops=['start', 'pe:1', 'pe:2', 'pe:3', 'pe:4', 'eq:4', 'xq'], faults=1, fault_ops=1, qbound=1, twobuild=True)],
+        thorough=[S('flat', faults=2, fault_ops=2, twobuild=True),
+                  S('hier2', faults=1, fault_ops=2, twobuild=True),
+                  S('hier2', ops=['start', 'pe:1', 'pe:2', 'pe:3', 'eq:1', 'xq'], faults=1, fault_ops=1, submits=1, guards=1, qbound=1),
+                  S('compl', ops=['start', 'pe:1', 'pe:2', 'pe:3', 'pe:4', 'eq:4', 'eq:1', 'xq'], faults=1, fault_ops=2, qbound=2, twobuild=True),
+                  S('defer', ops=['start', 'pe:1', 'pe:2', 'pe:3', 'pe:4', 'pe:5'], faults=1, fault_ops=1, qbound=2, twobuild=True),
+                  S('entry', faults=1, fault_ops=1, twobuild=True)],
+        rule='every reachable configuration x event x every guard/exit/action/entry position of the resulting step (incl. completion rows and behaviours run for '
+             'queued events, submachine levels) as the throw point, one faulty operation per history (quick) / two (thorough), every continuation to closure; '
+             'non-trivial when a fault was injected or follows one',
+    ),
 }
